@@ -148,6 +148,10 @@ Rcs == {0, 1, 5, 6, 10, 14, 49, 80, 88, 127, 128, 255, 256, 65535, MaxI}
 RefLists == <<<<>>, <<sUrl1>>, <<sUrl1, sUrl2>>>>
 Texts == <<<<>>, sMsg, sUtf>>
 Matcheds == <<<<>>, sDn, sUtfDn>>
+(* text that is valid UTF-8 but easy to mangle: NUL at the end (what Active Directory sends), in the middle and alone,
+   control characters, leading / trailing blanks, a trailing newline, a lone BOM *)
+OddTexts == << <<109, 115, 103, 0>>, <<108, 0, 114>>, <<0>>, <<0, 0>>, <<9, 10, 13>>, <<32, 97, 32>>, <<32>>, <<97, 10>>,
+               <<239, 187, 191>>, <<97, 13, 10>> >>
 RespCtlLists == <<<<>>, <<Ctl(sOid123, FALSE, TRUE, vBin)>>, PairA>>
 OptB(has, v) == [has |-> has, v |-> v]
 Resp(kind, id, rc, matched, text, refs, sasl, name, value, ctrls) ==
@@ -158,11 +162,13 @@ None == OptB(FALSE, <<>>)
 Plain(kind, rc, matched, text, refs, ctrls) == Resp(kind, 1, rc, matched, text, refs, None, None, None, ctrls)
 (* a response vector: the model, how the control list is written, and nothing else *)
 XV(r, emptyctl, expl) == [r |-> r, emptyctl |-> emptyctl, expl |-> expl]
-RespGroups == {"rc", "strings", "ctrls", "cross", "ids", "special"}
+RespGroups == {"rc", "strings", "odd", "ctrls", "cross", "ids", "special"}
 RespVals(kind, g) ==
   CASE g = "rc" -> {XV(Plain(kind, rc, Matcheds[m], Texts[m], <<>>, <<>>), FALSE, FALSE) : rc \in Rcs, m \in {1, 2}}
     [] g = "strings" -> {XV(Plain(kind, IF r = 1 THEN 0 ELSE 10, Matcheds[m], Texts[t], RefLists[r], <<>>), FALSE, FALSE) :
                            r \in 1..3, m \in 1..3, t \in 1..3}
+    [] g = "odd" -> {XV(Plain(kind, 49, OddTexts[m], OddTexts[t], <<>>, <<>>), FALSE, FALSE) : m \in {1, 6}, t \in 1..Len(OddTexts)}
+                    \cup {XV(Plain(kind, 10, <<>>, sMsg, <<OddTexts[t]>>, <<>>), FALSE, FALSE) : t \in {1, 6, 8}}
     [] g = "ctrls" -> {XV(Plain(kind, 0, <<>>, sMsg, <<>>, cl), FALSE, x) :
                          cl \in {<<c>> : c \in CtlPool} \cup {<<c, CtlLong>> : c \in CtlPool} \cup {<<CtlLong>>}, x \in BOOLEAN}
                       \cup {XV(Plain(kind, 0, <<>>, <<>>, <<>>, <<>>), TRUE, FALSE)}
